@@ -107,6 +107,8 @@ def _worker(args):
 
 def run(res, prop, tier, seed, model_ok, search, n_quick, n_thorough, gen_opts=None, directed=()):
     n = n_thorough if (tier == "thorough" or search) else n_quick
+    import directed as directed_lib
+    directed = list(directed_lib.all_scenarios()) + list(directed)
     jobs = [(prop, seed, -1 - i, gen_opts or {}, sc) for i, sc in enumerate(directed)]
     jobs += [(prop, seed, i, gen_opts or {}, None) for i in range(n)]
     if not model_ok:
